@@ -949,9 +949,9 @@ def plan_jobs(pid: str, tier: str, seed: int, names=None) -> list:
     for name in (names or QUICK[pid]):
         n = len(F[name]["race"])
         if tier == "quick":
-            bound, limit, nr, depth = 2, 60, 4, (2 if n >= 3 else 1)
+            bound, limit, nr, depth = (2 if n >= 3 else 3), 110, 6, (2 if n >= 3 else 1)
         else:
-            bound, limit, nr, depth = (3 if n >= 3 else 4), 700, 40, (2 if n >= 3 else 1)
+            bound, limit, nr, depth = (4 if n >= 3 else 8), 2200, 120, (2 if n >= 3 else 1)
         for k, root in enumerate(_roots(n, depth)):
             jobs.append((name, root, bound, limit, nr, seed * 101 + k))
     return jobs
